@@ -1,4 +1,4 @@
-import NA.Model.MapSites
+import NA.Model.MapSitesDeep
 import NA.Core.IOUtil
 /-! Driver for C16: runs the models of the repaired loops (`…Fixed`, fold over the entries sorted
 by key) on one case per line.  Fields are separated by TAB, entries by `|`, parts of an entry by `;`.
@@ -10,6 +10,8 @@ by key) on one case per line.  Fields are separated by TAB, entries by `|`, part
 * `first  key;msg|…`  (empty msg = none)          → first message in ascending key order, or `none` (`firstAbortFixed strLe`)
 * `first2  prefix;name;msg|…`                     → the same for keys (prefix, name), lexicographic (`firstErrorFixed (lexLe strLe strLe)`)
 * `opt  k;v|…  k;v|…`   (options of rule a, of rule b) → `k;v;v2` of the first differing option, or `none` (`firstOptionFixed strLe`)
+* `free  i,j,…`   (indexes of NAME-DRC-<i> occupied on the device for one name and one command kind)
+      → the index `setName` of generateNamesForTransfer takes (`firstFree`)
 * `log  key;msg|…`                                → messages in ascending key order joined by `|` (`infoLogFixed strLe`)
 -/
 namespace NA.Drv.C16
@@ -73,6 +75,10 @@ def answer (line : String) : String :=
       | none => "none"
       | some (k, v, v2) => s!"{k};{v};{v2}"
     | _, _ => "bad-input"
+  | ["free", used] =>
+    match natList used with
+    | some l => toString (firstFree l)
+    | none => "bad-input"
   | ["log", entries] =>
     let es? := (splitBar entries).mapM fun e => match parts e with
       | [k, msg] => some (k, optStr msg)
